@@ -65,7 +65,7 @@ func c14Child(run *evid.Run, batch, nb int, j *Journal) {
 	}
 }
 
-var c14Kinds = []string{"live-append", "live-merge", "cross", "ring", "cross", "live-append", "cross-4party", "stalled-reader", "ladder", "after-refusals"}
+var c14Kinds = []string{"live-append", "live-merge", "cross", "ring", "cross", "live-append", "cross-4party", "stalled-reader", "ladder", "after-refusals", "hub"}
 var c14Regimes = []string{"free", "noise", "park-source-heads-read", "park-source-entries-read", "park-holding-own-lock"}
 
 // c14FourParty: two logs merge each other in loops while a separate goroutine appends to each of them. With two
@@ -332,6 +332,10 @@ func c14Scenario(run *evid.Run, i int, j *Journal) {
 	}
 	if kind == "after-refusals" {
 		c14AfterRefusals(run, i, j)
+		return
+	}
+	if kind == "hub" {
+		c14Hub(run, i, j)
 		return
 	}
 	regime := c14Regimes[(i/len(c14Kinds))%len(c14Regimes)]
@@ -734,4 +738,109 @@ func c14AfterRefusals(run *evid.Run, i int, j *Journal) {
 		}
 	}
 	run.NonTrivial(fmt.Sprintf("after-refusals/%d/%s", target, model.DigestSeq(p.traceCopy())))
+}
+
+// c14Hub: several logs keep merging FROM one hub log while the hub itself keeps merging other logs (frozen
+// branches that each add a head, a stale copy of itself, and the spokes): three parties meet on the hub's heads.
+// Checked: termination (state-based), and after a final round every log holds everything.
+func c14Hub(run *evid.Run, i int, j *Journal) {
+	rng := rand.New(rand.NewSource(run.Seed*1031 + int64(i)))
+	w := hx.NewWorld(run.Seed, 4, fmt.Sprintf("c14h-%d-%d", run.Seed, i), "hash", "cbor")
+	k := i / len(c14Kinds)
+	label := fmt.Sprintf("#%d hub: %d spokes merge from a hub that merges frozen branches, a stale copy of itself and the spokes", i, 3+k%2)
+	j.Log(map[string]any{"scenario": label})
+	hub := w.NewLog(0)
+	for n := 0; n < 2+rng.Intn(3); n++ {
+		_, _ = hub.Append(w.Ctx, []byte(fmt.Sprintf("hub-%d", n)), nil)
+	}
+	var branches []*ipfslog.IPFSLog
+	for b := 0; b < 6+rng.Intn(8); b++ {
+		f := w.NewLog(1 + b%3)
+		for n := 0; n < 1+rng.Intn(2); n++ {
+			_, _ = f.Append(w.Ctx, []byte(fmt.Sprintf("branch%d-%d", b, n)), nil)
+		}
+		branches = append(branches, f)
+	}
+	stale := w.NewLog(0)
+	_, _ = stale.Join(hub, -1)
+	nspokes := 3 + k%2
+	var spokes []*ipfslog.IPFSLog
+	tags := map[*ipfslog.IPFSLog]string{hub: "H"}
+	for sidx := 0; sidx < nspokes; sidx++ {
+		sp := w.NewLog(1 + sidx%3)
+		_, _ = sp.Append(w.Ctx, []byte(fmt.Sprintf("spoke%d", sidx)), nil)
+		spokes = append(spokes, sp)
+		tags[sp] = fmt.Sprintf("S%d", sidx)
+	}
+	p := newPlan(uint64(run.Seed)*53+uint64(i), k%2 == 0, tags)
+	activePlan.Store(p)
+	defer activePlan.Store(nil)
+	rounds := 4 + rng.Intn(4)
+	done := runWorkers(1+nspokes, func(g int) {
+		if g == 0 {
+			for r := 0; r < rounds; r++ {
+				for _, b := range branches {
+					_, _ = hub.Join(b, -1)
+					_, _ = hub.Join(stale, -1)
+				}
+				for _, sp := range spokes {
+					_, _ = hub.Join(sp, -1)
+				}
+			}
+			return
+		}
+		sp := spokes[g-1]
+		for r := 0; r < rounds*len(branches); r++ {
+			if _, err := sp.Join(hub, -1); err != nil {
+				run.Violate("C14/join-error", det("kind", "hub"), map[string]any{"scenario": label}, "merge from the hub failed: %v", err)
+				return
+			}
+		}
+	})
+	ok, dead, dump := waitAll(done, p, 60*time.Second)
+	run.Eval(1)
+	run.Count("scenarios_hub", 1)
+	tr := p.traceCopy()
+	wit := func() map[string]any {
+		return map[string]any{"scenario": label, "seed": run.Seed, "hook_trace_tail": tail(tr, 80)}
+	}
+	if !ok {
+		if dead {
+			wt := wit()
+			wt["blocked_goroutines"] = dump
+			run.Violate("C14/deadlock", det("kind", "hub"), wt, "logs merging from a log that is itself merging never terminate (%s)", label)
+		} else {
+			run.Inconclusive("watchdog fired without a deadlock state: " + label)
+		}
+		return
+	}
+	// quiescent completion: hub takes every spoke, every spoke takes the hub
+	okf, deadf, dumpf := guardCall(func() {
+		for _, sp := range spokes {
+			_, _ = hub.Join(sp, -1)
+		}
+		for _, sp := range spokes {
+			_, _ = sp.Join(hub, -1)
+		}
+	}, 60*time.Second)
+	if !okf {
+		if deadf {
+			wt := wit()
+			wt["blocked_goroutines"] = dumpf
+			run.Violate("C14/deadlock", det("kind", "hub", "phase", "final"), wt, "final merges never returned (%s)", label)
+		}
+		return
+	}
+	ho := hx.Observe(hub)
+	for sidx, sp := range spokes {
+		so := hx.Observe(sp)
+		if !model.SameKeys(so.Set, ho.Set) || !model.EqualAsSets(so.Heads, ho.Heads) {
+			run.Violate("C14/not-a-snapshot", det("kind", "hub"), wit(), "after the final merges spoke %d holds %d entries / heads %v, the hub %d entries / heads %v", sidx, len(so.Set), hx.SortedShorts(so.Heads), len(ho.Set), hx.SortedShorts(ho.Heads))
+			break
+		}
+		if !model.EqualAsSets(so.Heads, model.Heads(so.Set)) {
+			run.Violate("C14/heads", det("kind", "hub"), wit(), "spoke %d: heads %v are not the unreferenced entries %v", sidx, hx.SortedShorts(so.Heads), hx.Shorts(model.Heads(so.Set)))
+		}
+	}
+	run.NonTrivial("hub/" + model.DigestSeq(tr))
 }
